@@ -69,6 +69,7 @@ type Plan struct {
 	CrashEvery int         `json:"crash_every,omitempty"` // C12: snapshot at every n-th changed I/O point (1 = all)
 	CrashMax   int         `json:"crash_max,omitempty"`
 	Listener   bool        `json:"listener,omitempty"` // attach an event listener
+	Loopback   bool        `json:"loopback,omitempty"` // C20: a PCAP-over-IP endpoint served over a real loopback socket (not replayable)
 	NoOracle   bool        `json:"no_oracle,omitempty"`
 	// weights for the scheduler (per mille): probability to prefer a
 	// background step over an API step when both are enabled
@@ -210,6 +211,8 @@ func Gen(prop, tier string, seed, run uint64) Plan {
 		// the race detector is the oracle; probes would add happens-before edges
 		p.NoOracle = true
 		p.Knobs.NumCPU = 4
+		// real socket, real timing: only in runs the determinism probe does not use
+		p.Loopback = run%7 == 3 || run%7 == 5
 	}
 	id := 0
 	add := func(o Op) {
@@ -422,6 +425,9 @@ func Gen(prop, tier string, seed, run uint64) Plan {
 		bad := Op{C: CImp, K: "ImportBad", V: r.IntN(3)}
 		at := r.IntN(len(impOps) + 1)
 		impOps = append(impOps[:at], append([]Op{bad}, impOps[at:]...)...)
+	}
+	if p.Loopback {
+		mutOps = append([]Op{{C: CMut, K: "AddEndpoint", Addr: "LOOPBACK"}}, mutOps...)
 	}
 	for _, o := range impOps {
 		add(o)
